@@ -45,6 +45,34 @@ CLAIMED.update({
             "compared by TLC with the specification's session record (C19-* clauses), excluding exactly the stale states the property excludes.", CHAN_NOTE, CHAN_TECH),
 })
 
+CLAIMED.update({
+    "C06": (CHAN, "Every finalized rf@*.h5 of every history is inspected raw (index rows, dataset length, 14 stored attributes, uuid, "
+            "sequence number) and judged by TLC (RowsOK, index denotation = written samples of that window, attributes = session "
+            "parameters, sequence increasing); regeneration of drf_properties.h5 from each single data file is followed by the full "
+            "observation set and a new session, all validated against the unchanged specification state (RegenProps).", CHAN_NOTE, CHAN_TECH),
+    "C07": (CHAN, "Product sweep element type x byte order x real/complex x subchannels x {continuous unchunked, continuous compressed} x gap "
+            "layouts, plus random continuous histories: each stored element is classified data / fill / bad by bit comparison and TLC "
+            "decides where fill is required or forbidden (Den, C07-* clauses), that a file exists iff one of its slots was written and "
+            "that the unchunked file is one block at the window start with full capacity.", CHAN_NOTE, CHAN_TECH),
+    "C03": ("TimeConv, MCTimeConv, TimeConvTrace, BigNat",
+            "E1: line-by-line TLA+ transcriptions of digital_rf_get_timestamp_floor / digital_rf_get_sample_ceil are checked by TLC against the "
+            "exact definitions on the whole input space of a scaled machine (12 ps per second, 12-bit word: all admissible n/d, all k, all "
+            "timestamps), with monotonicity and round trip. E3: the real C functions (ctypes on the freshly built extension) and "
+            "digital_rf.get_unix_time are called on the complete small scope and on biased full-magnitude draws; TLC decides every record with "
+            "exact base-10^4 limb arithmetic in multiplicative form, including the calendar.",
+            "Trusted: TLC, BigNat.tla (limb arithmetic), the limb encoder (Python big ints), ctypes access to the two C symbols (if a refactor "
+            "removes them the check reports a machinery error rather than guessing). Full-magnitude inputs are decided on executed cases, "
+            "not proved for all 2^160 inputs.", "TLA+ transcription model-checked on a scaled machine + TLC trace validation with exact limb arithmetic"),
+    "C04": ("Placement, MCPlacement, PlacementTrace, BigNat, DrfChannel",
+            "E1: TLC checks on a scaled machine that the windows [FileStart(t), FileStart(t+fc)) partition the index axis, that every index lies "
+            "in the window its own time selects, capacities are positive, and that the transcription of digital_rf_get_subdir_file agrees. "
+            "E3: every rf@*.h5 produced by random histories and by three one-sample writes around FileStart(j*fc) (random rates, cadences, "
+            "file numbers in 1980-2100, half on subdirectory boundaries) yields a record (name time, subdirectory name, first/last stored "
+            "index) that TLC checks with exact limb arithmetic; the channel traces additionally check that no index is in two files.",
+            "Trusted: TLC, BigNat.tla, raw h5py reading of rf_data_index. digital_rf_get_subdir_file is exercised through the writer, not "
+            "called directly.", "TLA+ placement theorems model-checked on a scaled machine + TLC trace validation of file records with exact limb arithmetic"),
+})
+
 PENDING_REASON = "check not built yet in this round; the property is planned to be decided by the TLA+ module named in DESIGN.md section 5"
 
 
